@@ -80,8 +80,44 @@ def lean_list(items, per_line=6):
     return "[\n" + ",\n".join(lines) + "]"
 
 
+def _typing_functions():
+    """`infer_kind` and `validate_scalar` of serif.typing — by name, or (renamed) the module-level callables that behave like them
+    on a handful of probes"""
+    import serif.typing as T
+    from serif import DataType
+    ik, vs = getattr(T, "infer_kind", None), getattr(T, "validate_scalar", None)
+
+    def is_ik(f):
+        try:
+            return f(None) is None and f(1) is int and f(True) is bool and f("a") is str and f(1.5) is float
+        except Exception:
+            return False
+
+    def raises(f, *a):
+        try:
+            f(*a)
+            return False
+        except TypeError:
+            return True
+        except Exception:
+            return None
+
+    def is_vs(f):
+        return (raises(f, 1, DataType(int)) is False and raises(f, "a", DataType(int)) is True
+                and raises(f, None, DataType(int)) is True and raises(f, None, DataType(int, True)) is False
+                and raises(f, True, DataType(float)) is False)
+    cands = [f for n, f in vars(T).items() if callable(f) and not isinstance(f, type) and getattr(f, "__module__", "") == T.__name__]
+    if not (callable(ik) and is_ik(ik)):
+        ik = next((f for f in cands if is_ik(f)), None)
+    if not (callable(vs) and is_vs(vs)):
+        vs = next((f for f in cands if is_vs(f)), None)
+    if ik is None or vs is None:
+        raise ImportError("infer_kind / validate_scalar not found in serif.typing, by name or by behaviour")
+    return DataType, ik, vs
+
+
 def section_typing(serif, out):
-    from serif.typing import DataType, infer_kind, validate_scalar
+    DataType, infer_kind, validate_scalar = _typing_functions()
     kc = kind_codes()
     inv = {v: k for k, v in kc.items()}
     rows, vrows, krows = [], [], []
